@@ -134,6 +134,47 @@ def check_prefix(f, g):
     return None
 
 
+GRB_TIGHT = {'BarQCPConvTol': 1e-10, 'BarConvTol': 1e-10, 'FeasibilityTol': 1e-9, 'OptimalityTol': 1e-9}
+
+
+def solver_params(case):
+    """Gurobi's default cone tolerances (1e-6) are amplified by the squaring tower of the approximation (2**degree): the
+    approximation error is measured with tight solver tolerances"""
+    return dict(GRB_TIGHT) if case['solver'] == 'grb' else {}
+
+
+def bracket(f, eps):
+    """optima (formula objective values) of the exact exp-cone program with every exponential cone relaxed / tightened by the
+    relative amount eps: y*(1+eps) >= z*exp(x/z) and y*(1-eps) >= z*exp(x/z). An approximation whose per-cone relative error is
+    at most eps has its optimum between the two. Returns (lo, hi); None where ECOS does not solve the perturbed program."""
+    import copy
+    from rsome import eco_solver
+    ycols = sorted(set(int(e[1]) for e in f.xmat))
+    others = set(int(e[0]) for e in f.xmat) | set(int(e[2]) for e in f.xmat)
+    if others & set(ycols):
+        return None, None
+    out = []
+    for sc in (1 + eps, 1 - eps):
+        f2 = copy.copy(f)
+        L = f.linear.tocsc(copy=True).astype(float)
+        for j in ycols:
+            L.data[L.indptr[j]:L.indptr[j + 1]] /= sc
+        f2.linear = L.tocsr()
+        f2.obj = np.array(f.obj, dtype=float).copy()
+        f2.obj[..., ycols] = f2.obj[..., ycols] / sc
+        f2.lb, f2.ub = np.array(f.lb, dtype=float).copy(), np.array(f.ub, dtype=float).copy()
+        f2.lb[ycols] *= sc
+        f2.ub[ycols] *= sc
+        with quiet():
+            try:
+                r = eco_solver.solve(f2, display=False)
+            except Exception:
+                r = None
+        ok = r is not None and r.x is not None and not np.isnan(r.objval) and 'lose' not in str(r.status)
+        out.append(float(r.objval) if ok else None)
+    return out[0], out[1]
+
+
 class C18(Prop):
     id = 'C18'
     rule = ('(pin) every exp-cone atom (exp, log, pexp, plog, softplus, entropy, summed exp/log, expcone) with its argument pinned so '
@@ -146,7 +187,9 @@ class C18(Prop):
             'after soc_solve() must still return the exact optimum. Non-trivial = |exponent| > 2 or the cone is not the only '
             'constraint; distinct by IR hash.')
     assumptions = ['exact reference = closed form (pin) or ECOS exp-cone optimum (model); comparison skipped when a solver fails',
-                   'relative error budget 1e-3 + 2e-4 solver tolerance (observed at degree 4: about 1.7e-4)']
+                   'relative error budget 1e-3 + 2e-4 solver tolerance (observed at degree 4: about 1.7e-4)',
+                   'Gurobi runs with cone/feasibility tolerances 1e-9..1e-10 (its defaults of 1e-6 are amplified 2**degree times by the squaring tower: 1.5e-3 at degree 8)',
+                   'generated models: an optimum outside the budget is a violation only if it also lies outside the bracket spanned by the exact program with all exponential cones relaxed / tightened by 1.3e-3 (badly conditioned programs amplify the per-cone error)']
 
     def examples(self, tier):
         return 1600 if tier == 'quick' else 40000
@@ -173,7 +216,7 @@ class C18(Prop):
                 return Outcome.fail('mutated_formula', 'to_socp() changed the cached formula (%d->%d cones, %d->%d exp cones)' % (nq, len(f.qmat), nx, len(f.xmat)), labels)
             try:
                 with quiet():
-                    m.soc_solve(solver, degree=deg, display=False)
+                    m.soc_solve(solver, degree=deg, display=False, params=solver_params(case))
             except Exception as ex:
                 if 'size-limited' in str(ex):
                     return Outcome.skip('gurobi_size_limit', labels)
@@ -223,6 +266,7 @@ class C18(Prop):
         if sol is None or sol.x is None or np.isnan(sol.objval) or 'lose' in str(sol.status):
             return Outcome.skip('exact_not_solved', labels)
         exact = m.get()
+        exact_obj = float(sol.objval)
         xs = np.asarray(sol.x)
         ratios = []
         for (i0, i1, i2) in f.xmat:
@@ -233,7 +277,7 @@ class C18(Prop):
                 ratios.append(abs(xs[i0] / z))
         try:
             with quiet():
-                m.soc_solve(solver, degree=deg, display=False)
+                m.soc_solve(solver, degree=deg, display=False, params=solver_params(case))
         except Exception as ex:
             if 'size-limited' in str(ex):
                 return Outcome.skip('gurobi_size_limit', labels)
@@ -242,6 +286,7 @@ class C18(Prop):
         if sol2 is None or sol2.x is None or np.isnan(sol2.objval) or 'lose' in str(sol2.status):
             return Outcome.skip('soc_not_solved', labels)
         approx = m.get()
+        approx_obj = float(sol2.objval)
         with quiet():
             m.solve(eco_solver, display=False)
         again = m.get() if m.solution is not None and m.solution.x is not None and not np.isnan(m.solution.objval) else None
@@ -251,6 +296,15 @@ class C18(Prop):
             return Outcome.ok(False, labels + ['exponent_out_of_range'])
         err = abs(approx - exact) / max(abs(exact), 1.0)
         if err > 1e-3 + 3e-4:
+            # a per-cone relative error eps moves the optimum of a badly conditioned program by much more than eps (e.g. two
+            # constraints that are both tight with nearly opposite slopes): the optimum of the approximation has to lie between
+            # the optima of the exact program with every cone relaxed / tightened by eps
+            lo, hi = bracket(f, 1.3e-3)
+            slack = 1.3e-3 * max(abs(exact_obj), 1.0)
+            if lo is None:
+                return Outcome.inconclusive('the eps-relaxed exact program is not solved: no bracket for the approximation', labels + ['no_bracket'])
+            if approx_obj >= lo - slack and (hi is None or approx_obj <= hi + slack):
+                return Outcome.ok(False, labels + ['ill_conditioned_within_bracket'])
             return Outcome.fail('accuracy:model', 'soc_solve (degree %d, %s) gives %.9g, exact optimum %.9g (relative error %.3g, max |x/z| %.3g)' % (
                 deg, case['solver'], approx, exact, err, max(ratios)), labels)
         return Outcome.ok(True, labels + ['compared'])
